@@ -351,7 +351,7 @@ def tr_config(run):
     ac = strip_comments(run.src("src/cli/action-conf.c"))
     ab = func_body(ac, "snoopy_cli_action_conf") or ""
     fmts = [c_unescape(x) for x in re.findall(r"printf\s*\(\s*" + STR, ab)]
-    v["conf_header"] = v["conf_section"] = v["conf_assign"] = v["conf_quote"] = v["conf_cont"] = v["conf_cont_sep"] = None
+    v["conf_header"] = v["conf_section"] = v["conf_assign"] = v["conf_quote"] = v["conf_cont"] = v["conf_cont_sep"] = v["conf_cont_ws"] = v["conf_cont_marks"] = None
     if len(fmts) >= 3 and fmts[0].endswith(b"%s\n") and fmts[0].count(b"%") == 1 and fmts[1].endswith(b"\n") and b"%" not in fmts[1]:
         v["conf_header"] = fmts[0][:-3]
         v["conf_section"] = fmts[1][:-1]
@@ -371,12 +371,28 @@ def tr_config(run):
                 v["conf_quote"] = bool(quoted)
                 v["conf_cont"] = bool(cont)
                 v["conf_cont_sep"] = cont[0][2:-3] if cont else b""
+                v["conf_cont_ws"], v["conf_cont_marks"] = b"", b""
                 if cont:
-                    # the helper must be the whitespace-then-';' scan of the ini parser
+                    # which bytes the helper takes for whitespace (isspace / isblank / explicit comparisons) and which mark it looks for
                     hb = func_body(ac, "snoopy_cli_conf_valueNeedsContinuationLine") or ""
-                    if not re.search(r"isspace\s*\(\s*\(\s*unsigned\s+char\s*\)\s*value\s*\[\s*i\s*\]\s*\)\s*&&\s*value\s*\[\s*i\s*\+\s*1\s*\]\s*==\s*';'", hb):
+                    m_ = re.search(r"if\s*\(\s*(.+?)\s*&&\s*value\s*\[\s*i\s*\+\s*1\s*\]\s*==\s*'(\\?.)'\s*\)\s*\{\s*return\s+1\s*;", hb, re.S)
+                    loop_ = re.search(r"for\s*\(\s*size_t\s+i\s*=\s*0\s*;\s*value\s*\[\s*i\s*\]\s*!=\s*'\\0'\s*;\s*i\+\+\s*\)", hb)
+                    ws_ = None
+                    if m_ and loop_ and len(re.findall(r"\bif\b", hb)) == 1 and re.search(r"\}\s*return\s+0\s*;\s*$", hb.strip()):
+                        t_ = m_.group(1).strip()
+                        cm_ = re.fullmatch(r"(isspace|isblank)\s*\(\s*\(\s*unsigned\s+char\s*\)\s*value\s*\[\s*i\s*\]\s*\)", t_)
+                        if cm_:
+                            ws_ = b" \t\n\v\f\r" if cm_.group(1) == "isspace" else b" \t"
+                        else:
+                            parts_ = [x.strip() for x in t_.strip("()").split("||")]
+                            cs_ = [re.fullmatch(r"\(?\s*value\s*\[\s*i\s*\]\s*==\s*'(\\?.)'\s*\)?", x) for x in parts_]
+                            if all(cs_):
+                                ws_ = b"".join(c_unescape(x.group(1)) for x in cs_)
+                    if ws_ is None:
                         note("action-conf.c: continuation test not recognised")
                         v["conf_cont"] = None
+                    else:
+                        v["conf_cont_ws"], v["conf_cont_marks"] = ws_, c_unescape(m_.group(2))
     if v["conf_assign"] is None:
         note("action-conf.c print formats not recognised")
     if not re.search(r'for\s*\(\s*int\s+i\s*=\s*0\s*;\s*0\s*!=\s*strcmp\s*\(\s*optionRegistry\s*\[\s*i\s*\]\s*\.name\s*,\s*""\s*\)\s*;\s*i\+\+\s*\)', ab):
@@ -416,7 +432,7 @@ def tr_config(run):
 # -------------------------------------------------------------------------------------------------- emission
 BYTES_FIELDS = ["ini_start_comment", "ini_inline_comment", "section_name", "bool_true", "bool_false", "bool_yes", "bool_no", "log_prefix",
                 "syslog_invalid", "suffix_k", "suffix_m", "d_message_format", "d_filter_chain", "d_output", "d_output_arg", "d_ident",
-                "conf_header", "conf_section", "conf_assign", "conf_cont_sep"]
+                "conf_header", "conf_section", "conf_assign", "conf_cont_sep", "conf_cont_ws", "conf_cont_marks"]
 NUM_FIELDS = ["doc_ds_min", "doc_ds_max", "doc_ds_def", "doc_log_min", "doc_log_max", "doc_log_def", "ini_max_line", "ini_max_section", "ini_max_name", "factor_k", "factor_m", "d_facility", "d_level",
               "ds_min", "ds_max", "ds_def", "log_min", "log_max", "log_def"]
 BOOL_FIELDS = ["ini_flags_ok", "cfg_strips", "util_strips", "len_saturating", "d_error_logging", "conf_quote", "conf_cont"]
@@ -424,7 +440,7 @@ ORDER = ["ini_max_line", "ini_max_section", "ini_max_name", "ini_start_comment",
          "bool_true", "bool_false", "bool_yes", "bool_no", "log_prefix", "cfg_strips", "util_strips", "output_sep", "output_names",
          "fac_to_int", "fac_to_str", "lvl_to_int", "lvl_to_str", "syslog_invalid", "len_saturating", "suffix_k", "factor_k", "suffix_m", "factor_m",
          "d_error_logging", "d_message_format", "d_filter_chain", "d_output", "d_output_arg", "d_facility", "d_ident", "d_level",
-         "ds_min", "ds_max", "ds_def", "log_min", "log_max", "log_def", "conf_header", "conf_section", "conf_assign", "conf_quote", "conf_cont", "conf_cont_sep",
+         "ds_min", "ds_max", "ds_def", "log_min", "log_max", "log_def", "conf_header", "conf_section", "conf_assign", "conf_quote", "conf_cont", "conf_cont_sep", "conf_cont_ws", "conf_cont_marks",
          "doc_options", "doc_fac", "doc_lvl", "doc_ds_min", "doc_ds_max", "doc_ds_def", "doc_log_min", "doc_log_max", "doc_log_def"]
 
 
